@@ -37,6 +37,11 @@ def contains_unmanaged(value, node, *, with_node=False):
         return False
     if isinstance(value, Unmanaged) or isinstance(node, ast.JoinedStr):
         return True
+    if isinstance(node, ast.Dict) and any(
+        isinstance(key, ast.JoinedStr) for key in node.keys
+    ):
+        # f-strings can also be used as keys
+        return True
     adapter = get_adapter_type(value)
     if adapter is not None and hasattr(adapter, "items"):
         if has_star_expression(node):
